@@ -400,6 +400,7 @@ structure DD2St (α : Type) where
   yy : α
   ee : α
   s : α
+  nsmall : Nat := 0   -- number of successive negligible terms (the loop stops at two; repaired code)
 
 def DDatanhee2Loop (E : Ell α) (dx dy : α) : Nat → DD2St α → α
   | 0, st => st.s
@@ -414,13 +415,15 @@ def DDatanhee2Loop (E : Ell α) (dx dy : α) : Nat → DD2St α → α
     let t := DD2Inner E.e2 m kmax kmax c c
     let ds := t * ee * xy / RealLike.ofNat (m + 2)
     let s := st.s + ds
-    if !(RealLike.ltb (RealLike.abs s * (eps : α) / 2) (RealLike.abs ds)) then s
-    else DDatanhee2Loop E dx dy fuel ⟨m + 1, xy, yy, ee, s⟩
+    if RealLike.ltb (RealLike.abs s * (eps : α) / 2) (RealLike.abs ds) then
+      DDatanhee2Loop E dx dy fuel ⟨m + 1, xy, yy, ee, s, 0⟩
+    else if st.nsmall + 1 == 2 then s
+    else DDatanhee2Loop E dx dy fuel ⟨m + 1, xy, yy, ee, s, st.nsmall + 1⟩
 
 /-- `DDatanhee2` (series in `1 − x`, `1 − y`) -/
 def DDatanhee2 (E : Ell α) (x y : α) : α :=
   let ee := E.e2 / sq E.e2m
-  DDatanhee2Loop E ((1 : α) - x) ((1 : α) - y) 400 ⟨1, (1 : α), (1 : α), ee, ee⟩
+  DDatanhee2Loop E ((1 : α) - x) ((1 : α) - y) 400 ⟨1, (1 : α), (1 : α), ee, ee, 0⟩
 
 /-- `DDatanhee(x, y)` -/
 def DDatanhee (E : Ell α) (x0 y0 : α) : α :=
